@@ -626,6 +626,9 @@ func Run(r *report.Run) int {
 			cls := "not-serializable"
 			if i := strings.Index(res.Problem, "CLASS="); i >= 0 {
 				cls = res.Problem[i+6:]
+				if j := strings.IndexByte(cls, ';'); j >= 0 {
+					cls = cls[:j] // directed rounds append their schedule after the class
+				}
 			}
 			if strings.Contains(res.Problem, "process-crash") {
 				cls = "process-crash"
